@@ -16,6 +16,14 @@ checks = {
    text="Same state graph; in every state TxDetails, UniqueTxDetails for every block and nil, RangeTransactions for every (begin,end) in both directions and PreviousPkScripts are compared with the reference ledger.",
    note="Same bounds as C01; order inside the unmined group of RangeTransactions is unspecified and not compared.",
    technique="explicit-state model checking of the implementation against a lock-step reference model"),
+ "C12": dict(engine="txgraph", level=MC, ref="4/C12",
+   text="Explicit-state BFS to fixpoint over chain events plus lease/release (two lock ids, every output of the universe and an unknown outpoint), 1-second clock ticks, expiry sweep and restart, on the real store with a controlled clock; return values, ListLockedOutputs, balances and the unspent set are compared with a lease table model in every state; real commit+close+reopen is validated for every state of the first universe(s).",
+   note="Whole-second instants (storage format), clock +0..+3 s, lease duration 2 s, heights 1..2; cases the statement leaves open (output already spent by a confirmed tx, release of an unknown output) follow the implementation.",
+   technique="explicit-state model checking of the implementation with a controlled clock against a lock-step lease model"),
+ "C14": dict(engine="maporder", level=EX, ref="4/C14",
+   text="DependencySort is executed on every DAG with <=4 nodes and 0/1/2 parallel edges per ordered pair (thorough: 5 nodes, 0/1 edges) under every combination of iteration orders of its map ranges (owned through a generated overlay), and Store.UnminedTxs in every reachable state of the tx-graph universes under every map order; result must be a permutation with parents first.",
+   note="Map iteration order is the only nondeterminism and is enumerated exhaustively through the ovgen overlay generated from the current tree; graphs beyond 5 nodes not covered.",
+   technique="exhaustive enumeration of inputs x all map-iteration orders (controlled nondeterminism) on the real code"),
 }
 pending_reason = "check not built yet in this session (planned, see DESIGN.md section 4)"
 def sh(c): return subprocess.run(c, shell=True, capture_output=True, text=True).stdout.strip()
@@ -26,6 +34,7 @@ m = {
  "hooks": {"guard": "verif", "enable": "go build -tags verif (done by ./vcheck)",
            "baseline_off_cmd": "/verif/baseline_off.sh", "source_commits": hook_commits, "add_only": True},
  "engines": [
+  {"name": "maporder", "path": "ovgen + harness/vorder", "serves_properties": ["C14"], "kind_free_text": "go build -overlay generated from the current tree rewrites map ranges into harness-controlled order; DFS over all order choice vectors"},
   {"name": "txgraph", "path": "harness/txgraph", "serves_properties": ["C01","C02","C12","C13","C14","C10"], "kind_free_text": "explicit-state BFS over the real wtxmgr.Store (state = canonical namespace dump) with a reference ledger in lock-step"},
  ],
  "checks": [], "not_applicable": [],
